@@ -22,7 +22,10 @@ GUARD_B = "variant(try(Regex::check_matches_empty_string(a1)))=Break"
 PROP = "propagate(try(Regex::check_matches_empty_string(a1)) as Break.0)"
 
 
-@rule("API-GUARD", ["C16", "C04", "C06", "C15", "C02", "C03", "C13"], floor=6)
+ALL_PROPS = ["C%02d" % i for i in range(1, 21)]
+
+
+@rule("API-GUARD", ALL_PROPS, floor=6)
 def api_guard(ctx):
     """replace_all and analyze create a matcher only after check_matches_empty_string() succeeded; tokenize does so
     too except for the empty input, for which it yields the exhausted iterator (prev_end = None). A failed check is
@@ -64,7 +67,13 @@ def api_guard(ctx):
         if not seen_err:
             _rec(d, name + "|error-propagated", False, "%s never returns MatchesEmptyString" % name, b.loc())
     # the closure of replace_all only converts chars to a String
-    return _emit(d)
+    out = _emit(d)
+    for i in out:
+        # what the three calls hand back is what the engine computed (every property is observed through them: a
+        # fast path beside the matcher bypasses whatever the other rules establish); the guard itself is about the
+        # refusal of regexes that match the empty string
+        i.props = ALL_PROPS if i.key.endswith("|guarded-ok") else ["C16", "C04", "C06", "C15", "C02", "C03", "C13"]
+    return out
 
 
 @rule("API-FLAG-PROV", ["C16", "C18", "C17", "C01", "C02", "C03", "C04", "C05", "C06", "C07", "C08", "C09", "C10", "C11", "C12", "C13", "C14", "C15", "C19", "C20"], floor=6)
@@ -332,10 +341,12 @@ def api_statics(ctx):
     out = []
     st = ctx.f.statics
     names = sorted(s["path"] for s in st)
-    shape_bad = [s for s in st if s["mut"] or s["thread_local"] or not strip_lt(s["ty"]).startswith("std::sync::OnceLock<")]
+    # ... whose content has no interior mutability either: a memo holds a value, it is not a place to keep notes in
+    INTERIOR = re.compile(r"\b(Mutex|RwLock|RefCell|Cell|OnceCell|UnsafeCell|Atomic\w+|Condvar|mpsc|Rc)\b")
+    shape_bad = [s for s in st if s["mut"] or s["thread_local"] or not strip_lt(s["ty"]).startswith("std::sync::OnceLock<") or INTERIOR.search(strip_lt(s["ty"])[len("std::sync::OnceLock<"):])]
     if shape_bad:
         s = shape_bad[0]
-        out.append(bad("statics", "static %s (%s) is not an immutable process-wide OnceLock: process- or thread-wide state makes results depend on earlier calls, other Regex objects or other threads" % (s["path"], s["ty"]), "%s:%s" % (s["span"]["file"], s["span"]["line"])))
+        out.append(bad("statics", "static %s (%s) is not an immutable process-wide OnceLock of a plain value: process- or thread-wide state makes results depend on earlier calls, other Regex objects or other threads" % (s["path"], s["ty"]), "%s:%s" % (s["span"]["file"], s["span"]["line"])))
     elif "category::BLOCK_LOOKUP" in names or names:
         out.append(ok("statics"))
     else:
@@ -383,14 +394,21 @@ def api_statics(ctx):
     # sites it read through as (function, initialiser))
     bu = users.get("category::BLOCK_LOOKUP", set())
     misused = [x for x in bad_use if x[0] == "category::BLOCK_LOOKUP"]
-    out.append(ok("static-users") if (bu and not misused) or "category::BLOCK_LOOKUP" not in names else bad("static-users", "BLOCK_LOOKUP is not used, or is used other than as a memo (BLOCK_LOOKUP.get_or_init(..)); used in %s" % sorted(bu), None))
+    if "category::BLOCK_LOOKUP" not in names:
+        # the same memo under another path (a static local to its accessor)
+        alt = [n for n in names if n.endswith("::BLOCK_LOOKUP")]
+        if alt:
+            bu = users.get(alt[0], set())
+            misused = [x for x in bad_use if x[0] == alt[0]]
+    out.append(ok("static-users") if (bu and not misused) or not [n for n in names if n.endswith("BLOCK_LOOKUP")] else bad("static-users", "BLOCK_LOOKUP is not used, or is used other than as a memo (BLOCK_LOOKUP.get_or_init(..)); used in %s" % sorted(bu), None))
     bl = ctx.body("category::block_lookup")
     memo_sites = [m for m in getattr(ctx.f, "memos", []) if m[1] == "category::BlockLookup::new"]
     if bl is not None:
         rs = {strip_ver(render(p.ret)) for p in ctx.walk(bl).paths}
         out.append(ok("get_or_init") if rs == {"OnceLock::get_or_init(static BLOCK_LOOKUP, fn BlockLookup::new)"} else bad("get_or_init", "block_lookup must be BLOCK_LOOKUP.get_or_init(BlockLookup::new); found %s" % sorted(rs), bl.loc()))
-    elif "category::BLOCK_LOOKUP" in names:
-        out.append(ok("get_or_init") if memo_sites else bad("get_or_init", "no function reads BLOCK_LOOKUP as BLOCK_LOOKUP.get_or_init(BlockLookup::new)", None))
+    else:
+        # (the static may live inside the accessor function: what matters is the memo of BlockLookup::new)
+        out.append(ok("get_or_init") if memo_sites else bad("get_or_init", "no function reads the block table as a memo S.get_or_init(BlockLookup::new)", None))
     # thread_local / lazy statics hidden in consts (LocalKey)
     for b in ctx.f.bodies:
         if b.kind.startswith("Const") or b.kind.startswith("Static"):
